@@ -164,6 +164,10 @@ pub enum RVal {
   Builtin(String),
   Range(bool, Box<RVal>, Box<RVal>, bool),
   Unary(UOp, Box<RVal>),
+  /// a number given by its literal text (keeps trailing zeros) together with its value
+  NumLit(String, Rat),
+  /// a number known only approximately (irrational results): compared with relative tolerance 1e-12
+  Approx(f64),
   /// the property / the specification does not determine the value: executed but not compared
   Unspec,
 }
@@ -198,6 +202,8 @@ impl RVal {
       RVal::Func(_) | RVal::Builtin(_) => "function",
       RVal::Range(..) => "range",
       RVal::Unary(..) => "unarytest",
+      RVal::Approx(_) => "number",
+      RVal::NumLit(..) => "number",
       RVal::Unspec => "unspecified",
     }
   }
@@ -227,6 +233,8 @@ impl RVal {
       RVal::Builtin(n) => format!("<builtin {}>", n),
       RVal::Range(lc, a, b, rc) => format!("{}{}..{}{}", if *lc { '[' } else { '(' }, a.show(), b.show(), if *rc { ']' } else { ')' }),
       RVal::Unary(op, a) => format!("<unary {:?} {}>", op, a.show()),
+      RVal::Approx(f) => format!("~{}", f),
+      RVal::NumLit(t, _) => t.clone(),
       RVal::Unspec => "<unspecified>".into(),
     }
   }
@@ -240,6 +248,7 @@ impl RVal {
         Value::Number(text.parse::<FeelNumber>().ok()?)
       }
       RVal::Str(s) => Value::String(s.clone()),
+      RVal::NumLit(t, _) => Value::Number(t.parse::<FeelNumber>().ok()?),
       RVal::List(v) => Value::List(Values::new(v.iter().map(|x| x.to_value()).collect::<Option<Vec<_>>>()?)),
       RVal::Ctx(es) => {
         let mut c = FeelContext::default();
@@ -314,6 +323,16 @@ pub fn compare(imp: &Value, r: &RVal) -> Cmp {
       }
     }
     (Value::Number(a), RVal::Num(b)) => num_matches(a, b),
+    (Value::Number(a), RVal::Approx(f)) => match a.to_string().parse::<f64>() {
+      Ok(x) => {
+        if (x - f).abs() <= 1e-12 * f.abs().max(1.0) {
+          Cmp::Same
+        } else {
+          Cmp::Different
+        }
+      }
+      Err(_) => Cmp::Different,
+    },
     (Value::String(a), RVal::Str(b)) => {
       if a == b {
         Cmp::Same
